@@ -165,7 +165,7 @@ def wait_case(ctx, rng, k):
 def timeout_case(ctx, rng, k):
     T = F.T
     kind = ["task-silent", "task-late-reply", "task-early-reply", "task-retry", "task-catch", "exec-wait", "exec-task", "exec-fanout", "exec-handlers",
-            "task-silent-crash", "exec-task-crash"][k % 11]
+            "task-silent-crash", "exec-task-crash", "exec-tie", "exec-overdue"][k % 13]
     crash = kind.endswith("-crash")
     if crash:
         kind = kind[:-6]
@@ -198,13 +198,24 @@ def timeout_case(ctx, rng, k):
         top["TimeoutSeconds"] = to
         states["A"] = {"Type": "Parallel", "Branches": [F.chain([("B1", F.W(to + 10))]), F.chain([("B2", T("silent"))])], "Next": "Done"}
         expect = dict(status="FAILED", error="States.Timeout", t=to)
+    elif kind == "exec-tie":
+        # the Task's own deadline and the execution's deadline coincide: it is the execution that has run out of time, which no handler intercepts
+        top["TimeoutSeconds"] = to
+        states["A"] = T("silent", TimeoutSeconds=to, Catch=[{"ErrorEquals": ["States.ALL"], "Next": "Caught"}], Next="Done")
+        expect = dict(status="FAILED", error="States.Timeout", t=to)
+    elif kind == "exec-overdue":
+        # the Task event is only handled after BOTH deadlines have passed (the engine was down): still the execution's time-out
+        top["TimeoutSeconds"] = to
+        states["A"] = T("silent", TimeoutSeconds=max(1, to - 2), Catch=[{"ErrorEquals": ["States.ALL"], "Next": "Caught"}],
+                        Retry=[{"ErrorEquals": ["States.Timeout"], "MaxAttempts": 2}], Next="Done")
+        expect = dict(status="FAILED", error="States.Timeout", t=to + 3)
     else:
         top["TimeoutSeconds"] = to
         states["A"] = T("silent", Retry=[{"ErrorEquals": ["States.ALL"], "MaxAttempts": 3}, {"ErrorEquals": ["States.Timeout"], "MaxAttempts": 3}],
                         Catch=[{"ErrorEquals": ["States.Timeout"], "Next": "Caught"}, {"ErrorEquals": ["States.ALL"], "Next": "Caught"}], Next="Done")
         expect = dict(status="FAILED", error="States.Timeout", t=to)
     # a preceding step that takes 1 s so that "entry" and "start" differ
-    pre = rng.choice([0, 1, 2])
+    pre = rng.choice([0, 1, 2]) if kind not in ("exec-tie", "exec-overdue") else 0
     asl = dict(top, StartAt="Pre", States=dict(states, Pre=({"Type": "Wait", "Seconds": pre, "Next": "A"} if pre else {"Type": "Pass", "Next": "A"})))
     exec_kind = kind.startswith("exec")
     if not exec_kind:
@@ -234,6 +245,20 @@ def timeout_case(ctx, rng, k):
             run.world.step_hooks.append(on_step)
         hooks.append(install)
         case["crash_after_request"] = True
+        ctx.count("timeout_cases_with_crash_and_redelivery")
+    if kind == "exec-overdue":
+        def install_down(run):
+            state = {"done": False}
+
+            def on_step(world, act):
+                # after the start event was handled the Task's event is waiting in the instance queue: the engine dies and comes back too late
+                if not state["done"] and act.kind == "deliver":
+                    state["done"] = True
+                    world.crash_engine("i1")
+                    world.clock.now += to + 3
+                    world.start_engine("i1")
+            run.world.step_hooks.append(on_step)
+        hooks.append(install_down)
         ctx.count("timeout_cases_with_crash_and_redelivery")
     run = S.execute(scn, seed=ctx.seed, hooks=hooks)
     try:
